@@ -1337,10 +1337,8 @@ impl CoreRuntime {
                     let irq_src = self.timer.irq_source.clone();
                     // If irq_source was lost, fall back to the delivered mask stack or live ISR bits.
                     let stack_mask = self.timer.delivered_masks.pop();
-                    let clear_mask = irq_src
-                        .as_deref()
-                        .and_then(src_mask_for_name)
-                        .or(stack_mask)
+                    let clear_mask = stack_mask
+                        .or_else(|| irq_src.as_deref().and_then(src_mask_for_name))
                         .or_else(|| {
                             self.memory
                                 .read_internal_byte(IMEM_ISR_OFFSET)
@@ -1359,7 +1357,7 @@ impl CoreRuntime {
                                 })
                         });
                     self.timer.in_interrupt = false;
-                    if irq_src.as_deref().is_some_and(|s| s == "KEY") {
+                    if clear_mask == Some(ISR_KEYI) {
                         self.timer.key_irq_latched = false;
                     }
                     self.timer.irq_source = None;
